@@ -98,7 +98,7 @@ def main():
     chk2 = Check('C09', c01.PKGS, 'pkg/secretstore',
                  ['secretstore/zz_verif_env.go', 'secretstore/zz_verif_rand.go', 'C09/zz_verif_c09_coop.go'],
                  installers=[crypto.install, crypto.install_proto, c02.install], init_pkgs=[MOD + '/pkg/errcode'], prelude_pkgname='secretstore')
-    chk2.load([P + 'VerifC09Coop'])
+    chk2.load([P + 'VerifC09Coop', P + 'VerifC09FirstUse'])
     cgrid = [(2, 1, 1, 2), (2, 1, 0, 1)] if t == 'quick' else [(2, 1, 1, 3), (2, 1, 0, 2), (2, 2, 1, 2), (3, 1, 1, 2)]
     kj = []
     for (sn, per, same, pre) in cgrid:
@@ -106,6 +106,12 @@ def main():
         for i in range(K):
             kj.append(Job(P + 'VerifC09Coop', (sn, per, same), cfg={'timeout_ms': 60000, 'unwind': 12, 'dec_as_term': True}, installers=[functools.partial(_coop_inst, pre)],
                           shard=(i, K), max_paths=400000, label='VerifC09Coop(%d,%d,%d)[pre<=%d]#%d/%d' % (sn, per, same, pre, i, K)))
+    for ws in (0, 1):
+        fpre = 2 if t == 'quick' else 3
+        FK = 4
+        for i in range(FK):
+            kj.append(Job(P + 'VerifC09FirstUse', (ws,), cfg={'timeout_ms': 60000, 'unwind': 12, 'dec_as_term': True}, installers=[functools.partial(_coop_inst, fpre)],
+                          shard=(i, FK), max_paths=400000, label='VerifC09FirstUse(%d)[pre<=%d]#%d/%d' % (ws, fpre, i, FK)))
     res += chk2.run_jobs(kj)
     chk = chk2
     finish(chk, res, t,
